@@ -23,6 +23,7 @@ type fnCtx struct {
 	parents map[ast.Node]ast.Node
 	params  map[types.Object]bool       // parameters, results, receivers (also of literals)
 	defs    map[types.Object][]ast.Expr // local variable -> right-hand sides of its definitions
+	descent *descentInfo
 }
 
 func (c *fnCtx) emit(kind string, n ast.Node, expr, guard string) {
@@ -302,7 +303,7 @@ func (c *fnCtx) call(call *ast.CallExpr) {
 				return // dynamic dispatch: callee not known statically
 			}
 		}
-		c.x.graph.edge(c.node, f.Pkg().Name()+"."+display(f))
+		c.x.graph.edge(c.node, f.Pkg().Name()+"."+display(f), c.callLevel(call))
 	}
 }
 
@@ -320,6 +321,30 @@ func (c *fnCtx) loopVar(n ast.Node, operand string, idx ast.Expr) bool {
 	obj := c.info.Uses[id]
 	for par := c.parents[n]; par != nil && obj != nil; par = c.parents[par] {
 		switch l := par.(type) {
+		case *ast.FuncLit:
+			// sort.Slice(x, func(i, j int) bool { … x[i] … x[j] … }): the contract of sort.Slice /
+			// sort.SliceStable is 0 <= i, j < len(x); x must not be assigned inside the callback
+			call, ok := c.parents[l].(*ast.CallExpr)
+			if !ok || len(call.Args) != 2 || call.Args[1] != ast.Expr(l) || text(call.Args[0]) != operand {
+				break
+			}
+			sel, ok := unparen(call.Fun).(*ast.SelectorExpr)
+			if !ok {
+				break
+			}
+			fn, ok := c.info.Uses[sel.Sel].(*types.Func)
+			if !ok || fn.Pkg() == nil || fn.Pkg().Path() != "sort" || (fn.Name() != "Slice" && fn.Name() != "SliceStable") {
+				break
+			}
+			isParam := false
+			for _, f := range l.Type.Params.List {
+				for _, pn := range f.Names {
+					isParam = isParam || c.info.Defs[pn] == obj
+				}
+			}
+			if isParam && !c.assigns(l.Body, obj) && !c.assignsText(l.Body, operand) {
+				return true
+			}
 		case *ast.RangeStmt:
 			k, ok := l.Key.(*ast.Ident)
 			if ok && l.Tok == token.DEFINE && c.info.Defs[k] == obj && n.Pos() >= l.Body.Pos() &&
@@ -482,6 +507,20 @@ func isLenOf(e ast.Expr, operand string) bool {
 	}
 	id, ok := unparen(call.Fun).(*ast.Ident)
 	return ok && id.Name == "len" && text(call.Args[0]) == operand
+}
+
+// assignsText: some assignment in body has a left-hand side written like `target`
+func (c *fnCtx) assignsText(body ast.Node, target string) bool {
+	found := false
+	ast.Inspect(body, func(n ast.Node) bool {
+		if s, ok := n.(*ast.AssignStmt); ok {
+			for _, l := range s.Lhs {
+				found = found || text(l) == target
+			}
+		}
+		return !found
+	})
+	return found
 }
 
 func (c *fnCtx) assigns(body ast.Node, v types.Object) bool {
